@@ -1,0 +1,17 @@
+//go:build verif
+// +build verif
+
+package revision
+
+import "net/http"
+
+// SetRoundTripperForSim replaces the transport of the syncer's HTTP client, so that a
+// simulation can route the follower's revision fetch to the leader's handler in-process.
+func SetRoundTripperForSim(r RevisionSyncer, rt http.RoundTripper) bool {
+	rs, ok := r.(*revisionSyncer)
+	if !ok {
+		return false
+	}
+	rs.httpClient.Transport = rt
+	return true
+}
